@@ -264,6 +264,9 @@ class ClientSide:
         # close: inside on_message_callback(None), resp. when the read_message() future resolves with None
         self.close_seen = []
         self.callback_mode = callback_mode
+        # read_message() style only: False = the application does not read on its own; messages stay unread in the
+        # connection's queue until read_one() / auto_read is switched on ("in-flight" messages at close time)
+        self.auto_read = True
         self._pending_read = None
         with fake_tcp() as streams:
             if callback_mode:
@@ -310,6 +313,9 @@ class ClientSide:
             self.conn = self.connect_future.result()
         if self.callback_mode or self.conn is None:
             return
+        if not self.auto_read:
+            self._collect_pending()
+            return
         for _ in range(10000):
             if self._pending_read is None:
                 if self.received and self.received[-1] is None:
@@ -322,6 +328,26 @@ class ClientSide:
                 return
             self.received.append(self._pending_read.result())
             self._pending_read = None
+
+    def _collect_pending(self):
+        if self._pending_read is not None and self._pending_read.done():
+            self.received.append(self._pending_read.result())
+            self._pending_read = None
+            return True
+        return False
+
+    async def read_one(self, pump=None):
+        """The application issues (at most) one read_message() and takes its result if it is there. -> bool"""
+        if self.connect_future.done() and self.conn is None and self.connect_future.exception() is None:
+            self.conn = self.connect_future.result()
+        if self.callback_mode or self.conn is None or (self.received and self.received[-1] is None):
+            return False
+        if self._pending_read is None:
+            self._pending_read = self.conn.read_message()
+            self._pending_read.add_done_callback(
+                lambda f: self._record_close_attrs() if not f.cancelled() and f.exception() is None and f.result() is None else None)
+        await vtime.settle(pump=pump or self.pump)
+        return self._collect_pending()
 
     def messages(self):
         return [m for m in self.received if m is not None]
